@@ -47,7 +47,7 @@ func (crashEngine) Generate(prop string, r *simrt.RNG, tier string, run int) *si
 		order = append(order, rest[i])
 	}
 	for _, id := range order {
-		sc.Ops = append(sc.Ops, simrt.Op{K: "dlv", I: []int64{int64(id), int64(r.Intn(2)), int64(r.Intn(3))}})
+		sc.Ops = append(sc.Ops, simrt.Op{K: "dlv", I: []int64{int64(id), int64(r.Intn(3)), int64(r.Intn(3))}})
 	}
 	return sc
 }
